@@ -65,6 +65,7 @@ def pixel_data(n: int, units: str = 'default', dtype='float64', index_dtype='int
         'alt': ('1/nm', '1/fm', '10/angstrom', 'eV', 'Mcount'),
         'alt2': ('1/um', '1/angstrom', '1/nm', 'ueV', 'count'),
         'extreme': ('1/angstrom', '1/angstrom', '1/angstrom', 'eV', 'count'),
+        'narrow': ('1/angstrom', '1/angstrom', '1/angstrom', 'meV', 'count'),
     }[units]
     sig_unit = sc.Unit('count') if u[4] == 'count' else sc.Unit('mega count')
 
@@ -97,6 +98,19 @@ def pixel_data(n: int, units: str = 'default', dtype='float64', index_dtype='int
             'u4': sc.array(dims=['obs'], values=u4, unit=u[3]),
         },
     )
+    if units == 'narrow' and n:
+        # round 6: rows whose spread is tiny relative to their size (or absolutely tiny) but whose float32 images are still
+        # distinct, next to exactly constant rows; every pixel must still be written as supplied
+        j = np.arange(n)
+        da.coords['idet'].values = (100000 + j % 2).astype(index_dtype)
+        da.coords['irun'].values = np.full(n, 1).astype(index_dtype)
+        da.coords['ien'].values = (16777210 + j % 3).astype(index_dtype)
+        da.coords['u1'].values = (3.0 + 2e-6 * (j % 4)).astype(dtype)
+        da.coords['u2'].values = (1e-9 * (1 + j % 5)).astype(dtype)
+        da.coords['u3'].values = np.full(n, -2.5).astype(dtype)
+        da.coords['u4'].values = (250.0 + 1e-3 * (j % 3)).astype(dtype)
+        da.values = (1e-9 * (1 + j % 7)).astype(dtype)
+        da.variances = (1e-12 * (1 + j % 2)).astype(dtype)
     return da
 
 
